@@ -10,6 +10,7 @@ CONSTANTS
   EnvOps <- EnvOps3
   KillCarriesState = TRUE
   Once = TRUE
+  MonPairs = {}
   Undecodable = {}
 INVARIANTS
   OrderOk PostStopOnlyGraceful NoOverlap NoStartAfterKill NoHandlerAfterStop KillWins SupBeforeMsg
